@@ -10,9 +10,11 @@ string-builder stacks (relative to frame entry) and the frame's catch stack.
   `jump_ip_back`, the `Function` skip).
 * `unwind`: an instruction raised an error and the frame has a handler (`pop_call_stack_on_error`):
   `set_ip(catch_ip)`; the catch stack is left as it is (the handler's first instruction is the
-  `TryEnd` that pops it). The model restores the builder depths recorded at `TryStart` — that is what
-  balance demands of an unwinder; the real VM leaves builders opened inside the try block behind
-  (finding F-C07-2, property C07).
+  `TryEnd` that pops it) and the builder stacks are truncated to the lengths recorded at `TryStart`
+  (fix 97373d1; before it the real VM left builders opened inside the try block behind).
+* leaving the frame (`Return`, or an error without a handler): `pop_frame` truncates the builder
+  stacks to their lengths at frame entry (fix 97373d1), so an open builder at `Return` is discarded
+  and is not a fault.
 
 Values, registers' contents and calls are not modelled here: a callee runs in its own unit with its
 own configuration and, when it is balanced, returns with the builder stacks as it found them.
@@ -62,12 +64,12 @@ inductive Reach (l : List Ann) (c0 : Cfg) : Cfg → Prop where
   | step (c c' : Cfg) : Reach l c0 c → Step l c c' → Reach l c0 c'
 
 /-- Internal faults of a configuration: the instruction pointer is not on an instruction of this
-unit (mid-instruction, inside a nested body, outside the unit); a builder instruction finds its
-builder stack empty; a backward jump leaves the chunk; the frame returns with an open builder. -/
+unit (mid-instruction, inside a nested body, past the unit's end); a builder instruction finds its
+builder stack empty; a backward jump leaves the chunk. -/
 def Fault (l : List Ann) (c : Cfg) : Prop :=
   match findPc l c.pc with
   | none => True
   | some a =>
-    vmEffect a c = none ∨ succPcs a = none ∨ (a.ins.op = .Return ∧ (c.seq ≠ 0 ∨ c.str ≠ 0))
+    vmEffect a c = none ∨ succPcs a = none
 
 end KotoVerif.Bytecode
